@@ -421,9 +421,23 @@ func C14(c *Ctx) {
 	if proc := c.fn("cmd/mcrew", "Service", "Process"); proc != nil {
 		c.R.Fn(fname(proc))
 		var gos []*ssa.Go
-		for _, f := range ssau.WithAnon(proc) {
+		// Process and the helpers of the package it is split into
+		var procFns []*ssa.Function
+		seenPF := map[*ssa.Function]bool{}
+		for _, f := range pkgClosure(proc) {
+			if prog.PkgOf(f) != "cmd/mcrew" {
+				continue
+			}
+			for _, g := range ssau.WithAnon(f) {
+				if !seenPF[g] {
+					seenPF[g] = true
+					procFns = append(procFns, g)
+				}
+			}
+		}
+		for _, f := range procFns {
 			ssau.Instrs(f, func(in ssa.Instruction) {
-				if g, ok := in.(*ssa.Go); ok {
+				if g, ok := in.(*ssa.Go); ok && (g.Call.StaticCallee() == proc || f == proc || f.Parent() == proc) {
 					gos = append(gos, g)
 				}
 			})
@@ -431,11 +445,15 @@ func C14(c *Ctx) {
 		okFan := false
 		why := fmt.Sprintf("%d go statements in Process", len(gos))
 		for _, g := range gos {
-			if g.Parent() != proc || g.Call.StaticCallee() != proc {
+			if g.Parent().Parent() != nil || g.Call.StaticCallee() != proc {
 				why = "emitted messages are not re-processed by one Process goroutine each"
 				continue
 			}
-			loops := enclosingLoops(flow.Loops(proc), g.Block())
+			if g.Parent() != proc && len(callSitesOf(g.Parent(), []*ssa.Function{proc})) == 0 {
+				why = "the function that re-injects emitted messages is not called by Process"
+				continue
+			}
+			loops := enclosingLoops(flow.Loops(g.Parent()), g.Block())
 			if len(loops) < 3 {
 				why = "the re-injection is not inside the loop over every stride's emitted messages"
 				continue
